@@ -198,9 +198,9 @@ func spec_userAction(r int, dollarDolar *StateSym, Dollar []StateSym)
 //@     (forall s, a int :: 0 <= s && s < spec_nstates() && 0 <= a && a < spec_nsym() ==> StateActionArray[s][a] == spec_T(s, a))
 
 //@ func (*StateSym).Action
-//@ props C01 C05 C06 C08
+//@ props C01 C02 C05 C06 C08
 //@ requires s != nil && 0 <= s.Yystate && s.Yystate < spec_nstates() && 0 <= a && a < spec_nsym() && tablesOK()
-//@ ensures [C01,C05,C08] result == spec_T(s.Yystate, a)
+//@ ensures [C01,C02,C05,C08] result == spec_T(s.Yystate, a)
 //@ modifies nothing
 
 // =============================================================================================
@@ -220,8 +220,8 @@ func spec_userAction(r int, dollarDolar *StateSym, Dollar []StateSym)
 //@     (forall s int :: 0 <= s && s < spec_nstates() ==> StatePackOffset[s] + spec_nT() >= 0)
 
 //@ func (*StateSym).Action
-//@ props C01 C05 C06 C08
+//@ props C01 C02 C05 C06 C08
 //@ use TC0, SIZES
 //@ requires s != nil && 0 <= s.Yystate && s.Yystate < spec_nstates() && 0 <= a && a < spec_nsym() && tablesOK()
-//@ ensures [C01,C05,C08] result == spec_T(s.Yystate, a)
+//@ ensures [C01,C02,C05,C08] result == spec_T(s.Yystate, a)
 //@ modifies nothing
